@@ -28,6 +28,15 @@ type CaseC07 struct {
 	// Later, when set, is another PAT sent in a second PID-0 packet further down the stream (a table update, or the
 	// next section of a multi-section table): the table reported is the one in the first PID-0 packet.
 	Later *ref.PAT `json:"later_pat,omitempty"`
+	// Pointer is the pointer_field in front of the section (that many 0xFF filler bytes follow it)
+	Pointer int `json:"pointer,omitempty"`
+}
+
+// c07Payload is pointer_field ++ filler ++ section.
+func c07Payload(c CaseC07, section []byte) []byte {
+	p := []byte{byte(c.Pointer)}
+	p = append(p, bytes.Repeat([]byte{0xFF}, c.Pointer)...)
+	return append(p, section...)
 }
 
 func genC07(t *rapid.T) CaseC07 {
@@ -96,6 +105,19 @@ func genC07(t *rapid.T) CaseC07 {
 			l.Entries = []ref.PATEntry{}
 		}
 		c.Later = &l
+	}
+	if rapid.IntRange(0, 3).Draw(t, "with-pointer") == 0 {
+		// the section need not start right behind the pointer_field
+		room := 255
+		if c.Carrier != "payload" {
+			room = 184 - 1 - (12 + 4*n)
+		}
+		if room > 0 {
+			c.Pointer = rapid.IntRange(1, room).Draw(t, "pointer")
+			if rapid.Bool().Draw(t, "pointer-small") && room >= 4 {
+				c.Pointer = rapid.IntRange(1, 4).Draw(t, "pointer-s")
+			}
+		}
 	}
 	c.Trailing = rapid.SampledFrom([]int{0, 0, 1, 5, 60}).Draw(t, "trailing")
 	c.Before = rapid.IntRange(0, 5).Draw(t, "before")
@@ -177,7 +199,8 @@ func checkC07(c CaseC07, x *hx.Ctx) *hx.Failure {
 	x.LabelIf(n > 42, ">42-entries")
 	what := fmt.Sprintf("carrier %s, %d entries", c.Carrier, n)
 
-	payload := append([]byte{0}, section...)
+	payload := c07Payload(c, section)
+	x.LabelIf(c.Pointer > 0, "pointer_field>0")
 	switch c.Carrier {
 	case "payload":
 		payload = append(payload, bytes.Repeat([]byte{0xFF}, c.Trailing)...)
@@ -262,8 +285,8 @@ func checkC07(c CaseC07, x *hx.Ctx) *hx.Failure {
 var propC07 = hx.Register(hx.Prop[CaseC07]{ID: "C07", Gen: genC07, Check: checkC07})
 
 func c07Rule() {
-	hx.Rec("C07").SetRule("cases: a reference-model PAT with 0..253 entries (payload carrier) or 0..42 (packet and stream carriers), distinct program numbers, with probability 1/4 a network entry (program 0) at a drawn position, PIDs biased to > 255 and 0x1FFF, arbitrary transport_stream_id/version; carried as payload bytes (optional trailing stuffing), as a 188-byte packet (payload-side padding or adaptation-field stuffing), or in a stream after 0..5 packets of other PIDs and before 0..2 more, optionally followed by a second, different PID-0 packet (table update or another section_number; section_number/last_section_number/current_next drawn freely). Oracle: the model (entry count, exact program map, single-program accessor, IsPMT for map values/neighbours/drawn PIDs, nil PAT, not-found on streams without a PID-0 packet incl. a truncated last packet). Enumerated: every entry count 0..253 (payload) and 0..42 (packet, packet-af, stream) with and without a network entry. Non-trivial: entry count not in {1,2}, or a network entry, or a PID > 255, or a non-zero stream offset.",
-		"pointer_field 0 only; distinct program numbers")
+	hx.Rec("C07").SetRule("cases: a reference-model PAT with 0..253 entries (payload carrier) or 0..42 (packet and stream carriers), distinct program numbers, with probability 1/4 a network entry (program 0) at a drawn position, PIDs biased to > 255 and 0x1FFF, arbitrary transport_stream_id/version, pointer_field 0 (three cases in four) or up to what the carrier allows; carried as payload bytes (optional trailing stuffing), as a 188-byte packet (payload-side padding or adaptation-field stuffing), or in a stream after 0..5 packets of other PIDs and before 0..2 more, optionally followed by a second, different PID-0 packet (table update or another section_number; section_number/last_section_number/current_next drawn freely). Oracle: the model (entry count, exact program map, single-program accessor, IsPMT for map values/neighbours/drawn PIDs, nil PAT, not-found on streams without a PID-0 packet incl. a truncated last packet). Enumerated: every entry count 0..253 (payload) and 0..42 (packet, packet-af, stream) with and without a network entry. Non-trivial: entry count not in {1,2}, or a network entry, or a PID > 255, or a non-zero stream offset.",
+		"distinct program numbers")
 }
 
 func TestC07(t *testing.T) {
